@@ -363,7 +363,7 @@ verif_harness! {
     stubs: [(crate::belt_block_raw, stub_raw)],
     prop: |inp| { conf_len::<48>(inp, 32, true) }
 }
-//@ harness name=wblock_enc_l33 prop=C18,C20 tier=quick bits=520 stub=1 est=175 need=9 desc="W: belt_wblock_enc(data[..33], key) == oracle belt-wbl at the fixed length 33, all keys, all contents, octets beyond the length untouched; belt-block under the key uninterpreted"
+//@ harness name=wblock_enc_l33 prop=C18,C20 tier=quick bits=520 stub=1 est=260 need=9 desc="W: belt_wblock_enc(data[..33], key) == oracle belt-wbl at the fixed length 33, all keys, all contents, octets beyond the length untouched; belt-block under the key uninterpreted"
 verif_harness! {
     name: wblock_enc_l33,
     bytes: 33 + 48,
@@ -371,7 +371,7 @@ verif_harness! {
     stubs: [(crate::belt_block_raw, stub_raw)],
     prop: |inp| { conf_len::<48>(inp, 33, false) }
 }
-//@ harness name=wblock_dec_l33 prop=C18,C20 tier=quick bits=520 stub=1 est=90 need=8 desc="W: belt_wblock_dec(data[..33], key) == oracle belt-wbl at the fixed length 33, all keys, all contents, octets beyond the length untouched; belt-block under the key uninterpreted"
+//@ harness name=wblock_dec_l33 prop=C18,C20 tier=quick bits=520 stub=1 est=100 need=8 desc="W: belt_wblock_dec(data[..33], key) == oracle belt-wbl at the fixed length 33, all keys, all contents, octets beyond the length untouched; belt-block under the key uninterpreted"
 verif_harness! {
     name: wblock_dec_l33,
     bytes: 33 + 48,
@@ -379,7 +379,7 @@ verif_harness! {
     stubs: [(crate::belt_block_raw, stub_raw)],
     prop: |inp| { conf_len::<48>(inp, 33, true) }
 }
-//@ harness name=wblock_enc_l47 prop=C18,C20 tier=quick bits=632 stub=1 est=140 need=9 desc="W: belt_wblock_enc(data[..47], key) == oracle belt-wbl at the fixed length 47, all keys, all contents, octets beyond the length untouched; belt-block under the key uninterpreted"
+//@ harness name=wblock_enc_l47 prop=C18,C20 tier=quick bits=632 stub=1 est=155 need=9 desc="W: belt_wblock_enc(data[..47], key) == oracle belt-wbl at the fixed length 47, all keys, all contents, octets beyond the length untouched; belt-block under the key uninterpreted"
 verif_harness! {
     name: wblock_enc_l47,
     bytes: 33 + 48,
@@ -387,7 +387,7 @@ verif_harness! {
     stubs: [(crate::belt_block_raw, stub_raw)],
     prop: |inp| { conf_len::<48>(inp, 47, false) }
 }
-//@ harness name=wblock_dec_l47 prop=C18,C20 tier=quick bits=632 stub=1 est=100 need=8 desc="W: belt_wblock_dec(data[..47], key) == oracle belt-wbl at the fixed length 47, all keys, all contents, octets beyond the length untouched; belt-block under the key uninterpreted"
+//@ harness name=wblock_dec_l47 prop=C18,C20 tier=quick bits=632 stub=1 est=90 need=8 desc="W: belt_wblock_dec(data[..47], key) == oracle belt-wbl at the fixed length 47, all keys, all contents, octets beyond the length untouched; belt-block under the key uninterpreted"
 verif_harness! {
     name: wblock_dec_l47,
     bytes: 33 + 48,
@@ -395,7 +395,7 @@ verif_harness! {
     stubs: [(crate::belt_block_raw, stub_raw)],
     prop: |inp| { conf_len::<48>(inp, 47, true) }
 }
-//@ harness name=wblock_enc_l48 prop=C18,C20 tier=quick bits=640 stub=1 est=95 need=9 desc="W: belt_wblock_enc(data[..48], key) == oracle belt-wbl at the fixed length 48, all keys, all contents, octets beyond the length untouched; belt-block under the key uninterpreted"
+//@ harness name=wblock_enc_l48 prop=C18,C20 tier=quick bits=640 stub=1 est=110 need=9 desc="W: belt_wblock_enc(data[..48], key) == oracle belt-wbl at the fixed length 48, all keys, all contents, octets beyond the length untouched; belt-block under the key uninterpreted"
 verif_harness! {
     name: wblock_enc_l48,
     bytes: 33 + 48,
@@ -403,7 +403,7 @@ verif_harness! {
     stubs: [(crate::belt_block_raw, stub_raw)],
     prop: |inp| { conf_len::<48>(inp, 48, false) }
 }
-//@ harness name=wblock_dec_l48 prop=C18,C20 tier=quick bits=640 stub=1 est=90 need=8 desc="W: belt_wblock_dec(data[..48], key) == oracle belt-wbl at the fixed length 48, all keys, all contents, octets beyond the length untouched; belt-block under the key uninterpreted"
+//@ harness name=wblock_dec_l48 prop=C18,C20 tier=quick bits=640 stub=1 est=95 need=8 desc="W: belt_wblock_dec(data[..48], key) == oracle belt-wbl at the fixed length 48, all keys, all contents, octets beyond the length untouched; belt-block under the key uninterpreted"
 verif_harness! {
     name: wblock_dec_l48,
     bytes: 33 + 48,
@@ -411,7 +411,7 @@ verif_harness! {
     stubs: [(crate::belt_block_raw, stub_raw)],
     prop: |inp| { conf_len::<48>(inp, 48, true) }
 }
-//@ harness name=wblock_inv_ed_l33 prop=C18,C01,C20 tier=quick bits=520 stub=1 est=140 need=11 desc="W: dec(enc(x)) == x at the fixed length 33, all keys, all contents; belt-block an arbitrary function"
+//@ harness name=wblock_inv_ed_l33 prop=C18,C01,C20 tier=quick bits=520 stub=1 est=150 need=11 desc="W: dec(enc(x)) == x at the fixed length 33, all keys, all contents; belt-block an arbitrary function"
 verif_harness! {
     name: wblock_inv_ed_l33,
     bytes: 33 + 48,
@@ -419,7 +419,7 @@ verif_harness! {
     stubs: [(crate::belt_block_raw, stub_raw)],
     prop: |inp| { inverse_len::<48>(inp, 33, true) }
 }
-//@ harness name=wblock_inv_de_l33 prop=C18,C01,C20 tier=quick bits=520 stub=1 est=150 need=11 desc="W: enc(dec(x)) == x at the fixed length 33, all keys, all contents; belt-block an arbitrary function"
+//@ harness name=wblock_inv_de_l33 prop=C18,C01,C20 tier=quick bits=520 stub=1 est=170 need=11 desc="W: enc(dec(x)) == x at the fixed length 33, all keys, all contents; belt-block an arbitrary function"
 verif_harness! {
     name: wblock_inv_de_l33,
     bytes: 33 + 48,
@@ -427,7 +427,7 @@ verif_harness! {
     stubs: [(crate::belt_block_raw, stub_raw)],
     prop: |inp| { inverse_len::<48>(inp, 33, false) }
 }
-//@ harness name=wblock_inv_ed_l48 prop=C18,C01,C20 tier=quick bits=640 stub=1 est=175 need=11 desc="W: dec(enc(x)) == x at the fixed length 48, all keys, all contents; belt-block an arbitrary function"
+//@ harness name=wblock_inv_ed_l48 prop=C18,C01,C20 tier=quick bits=640 stub=1 est=240 need=11 desc="W: dec(enc(x)) == x at the fixed length 48, all keys, all contents; belt-block an arbitrary function"
 verif_harness! {
     name: wblock_inv_ed_l48,
     bytes: 33 + 48,
@@ -435,7 +435,7 @@ verif_harness! {
     stubs: [(crate::belt_block_raw, stub_raw)],
     prop: |inp| { inverse_len::<48>(inp, 48, true) }
 }
-//@ harness name=wblock_inv_de_l48 prop=C18,C01,C20 tier=quick bits=640 stub=1 est=160 need=11 desc="W: enc(dec(x)) == x at the fixed length 48, all keys, all contents; belt-block an arbitrary function"
+//@ harness name=wblock_inv_de_l48 prop=C18,C01,C20 tier=quick bits=640 stub=1 est=230 need=11 desc="W: enc(dec(x)) == x at the fixed length 48, all keys, all contents; belt-block an arbitrary function"
 verif_harness! {
     name: wblock_inv_de_l48,
     bytes: 33 + 48,
